@@ -73,7 +73,7 @@ def _shards(func, tier):
 
 
 def write_replay(prop, v):
-    outdir = os.path.join(VERIF_DIR, "out", "replays")
+    outdir = os.path.join(os.environ.get("VERIF_OUT_DIR") or os.path.join(VERIF_DIR, "out"), "replays")
     os.makedirs(outdir, exist_ok=True)
     h = "%016x" % stable_hash([v["bucket"], v["case"]])
     path = os.path.join(outdir, "%s-%s.json" % (prop, h))
@@ -186,8 +186,9 @@ def main(argv):
         wall_s=round(wall, 2),
         violations=len(violations),
     )
-    os.makedirs(os.path.join(VERIF_DIR, "evidence"), exist_ok=True)
-    with open(os.path.join(VERIF_DIR, "evidence", prop + ".json"), "w") as f:
+    evdir = os.environ.get("VERIF_EVIDENCE_DIR") or os.path.join(VERIF_DIR, "evidence")
+    os.makedirs(evdir, exist_ok=True)
+    with open(os.path.join(evdir, prop + ".json"), "w") as f:
         json.dump(ev, f, indent=1, sort_keys=False)
         f.write("\n")
 
